@@ -231,3 +231,306 @@ Proof. intros Hc H. apply (str_all_no_char is_id_char); [exact Hc | now apply is
 
 Lemma spaces_no c s : is_space c = false -> str_all is_space s = true -> has_char c s = false.
 Proof. intros Hc H. now apply (str_all_no_char is_space). Qed.
+
+(* ====================================================================== *)
+(* B. well-formed layouts; the view of every rendered line                 *)
+(* ====================================================================== *)
+
+(* marker texts: no '#', ':', '=', no quote characters, no newline; no white space at either end *)
+Definition plain_char (a : ascii) : bool :=
+  negb (Ascii.eqb a "#") && negb (Ascii.eqb a ":") && negb (Ascii.eqb a "=")
+  && negb (Ascii.eqb a "'") && negb (Ascii.eqb a """") && negb (Ascii.eqb a NL).
+Definition text_ok (s : string) : bool := str_all plain_char s && edge_ok s.       (* may be empty *)
+Definition mark_ok (s : string) : bool := text_ok s && str_nonempty s.
+Definition type_char (a : ascii) : bool :=
+  negb (Ascii.eqb a "#") && negb (Ascii.eqb a ":") && negb (Ascii.eqb a "=").
+Definition type_ok (s : string) : bool := str_all type_char s && edge_ok s && str_nonempty s.
+Definition value_char (a : ascii) : bool := negb (Ascii.eqb a "#").
+Definition value_ok (s : string) : bool := str_all value_char s && edge_ok s && str_nonempty s.
+
+Definition dstr_ok (d : dstr) : bool :=
+  match d with
+  | DOne _ s => text_ok s
+  | DMulti _ a ms z => text_ok a && forallb text_ok ms && text_ok z
+  end.
+
+Definition fld_ok (f : fld) : bool :=
+  is_ident (f_name f) && type_ok (f_type f)
+  && match f_value f with Some v => value_ok v | None => true end
+  && forallb mark_ok (f_above f)
+  && match f_inline f with Some c => mark_ok c | None => true end
+  && match f_below f with Some d => dstr_ok d | None => true end.
+
+(* the scanner instance the lemmas are about; Gen/FactsDoc.v must regenerate exactly these literals *)
+Definition cS : ascii := "'"%char.
+Definition cD : ascii := """"%char.
+Definition vw : string -> lview := view "#" ":" "=" (tok3 cS) (tok3 cD).
+Definition cdef : string -> bool := contains_def "#" ":" "=".
+
+Lemma bridge_view : view_gen = vw.
+Proof. reflexivity. Qed.
+Lemma bridge_scan_lines : scan_lines_gen = fun lines f => find_field f [] (map vw lines).
+Proof. reflexivity. Qed.
+
+(* header lines (decorators, the class line, what is left of the class docstring): not field definitions, and
+   either carrying a triple quote or no comment *)
+Definition hdr_ok (v : lview) : bool := negb (v_isdef v) && (v_quote v || String.eqb (v_comment v) "").
+
+Definition wf_layout (L : layout) : bool :=
+  match l_hdr L with [] => false | _ => true end
+  && forallb (fun l => hdr_ok (view_gen l)) (l_hdr L)
+  && forallb fld_ok (l_fields L).
+
+(* ---------- consequences of the boolean predicates ---------- *)
+Lemma str_nonempty_ne s : str_nonempty s = true -> s <> "".
+Proof. unfold str_nonempty. intros H E. subst. discriminate H. Qed.
+
+Lemma plain_no c s : plain_char c = false -> str_all plain_char s = true -> has_char c s = false.
+Proof. apply str_all_no_char. Qed.
+
+Lemma text_ok_parts s : text_ok s = true -> str_all plain_char s = true /\ edge_ok s = true.
+Proof. intros H. now apply andb_true_iff in H. Qed.
+
+Lemma mark_ok_parts s : mark_ok s = true -> str_all plain_char s = true /\ edge_ok s = true /\ s <> "".
+Proof.
+  intros H. apply andb_true_iff in H as [H1 H2]. apply text_ok_parts in H1 as [Ha Hb].
+  repeat split; try assumption. now apply str_nonempty_ne.
+Qed.
+
+Lemma edge_ok_last s : edge_ok s = true -> first_ok (srev s) = true.
+Proof. intros H. now apply andb_true_iff in H. Qed.
+Lemma edge_ok_first s : edge_ok s = true -> first_ok s = true.
+Proof. intros H. now apply andb_true_iff in H. Qed.
+
+Lemma has_char_before c d s : has_char c s = false -> has_char c (before_char d s) = false.
+Proof.
+  induction s as [|a r IH]; simpl; intros H; [reflexivity|].
+  apply orb_false_iff in H as [Ha Hr]. destruct (Ascii.eqb a d); simpl; [reflexivity|].
+  now rewrite Ha, IH.
+Qed.
+
+Lemma no_colon_not_def line : has_char ":" line = false -> cdef line = false.
+Proof.
+  intros H. unfold cdef, contains_def.
+  rewrite (has_char_before ":" "#" line H). reflexivity.
+Qed.
+
+Ltac nochar :=
+  first [ assumption | reflexivity
+        | rewrite has_char_app; apply orb_false_iff; split; nochar ].
+
+(* ---------- blank line ---------- *)
+Lemma view_blank : vw "" = mkview false None false true false "" None None None "".
+Proof. reflexivity. Qed.
+
+(* ---------- comment line ---------- *)
+Section CommentLine.
+  Variables ind c : string.
+  Hypothesis Hind : str_all is_space ind = true.
+  Hypothesis Hc : mark_ok c = true.
+
+  Let line := ind ++ "# " ++ c.
+
+  Lemma comment_line_view :
+    v_isdef (vw line) = false /\ v_quote (vw line) = false /\ v_empty (vw line) = false
+    /\ v_iscomment (vw line) = true /\ v_comment (vw line) = c.
+  Proof.
+    destruct (mark_ok_parts c Hc) as [Hp [He Hne]].
+    assert (Hbody : edge_ok ("# " ++ c) = true).
+    { apply (edge_ok_app "# " c); [discriminate | exact Hne | reflexivity | now apply edge_ok_last]. }
+    assert (Hstrip : strip line = "# " ++ c) by (apply strip_pad_l; assumption).
+    unfold vw, view; cbn [v_isdef v_quote v_empty v_iscomment v_comment].
+    repeat split.
+    - apply no_colon_not_def. unfold line.
+      assert (has_char ":" ind = false) by (now apply spaces_no).
+      assert (has_char ":" c = false) by (now apply plain_no).
+      nochar.
+    - apply orb_false_iff. split; apply contains_none; unfold line.
+      + assert (has_char cD ind = false) by (now apply spaces_no).
+        assert (has_char cD c = false) by (now apply plain_no). nochar.
+      + assert (has_char cS ind = false) by (now apply spaces_no).
+        assert (has_char cS c = false) by (now apply plain_no). nochar.
+    - rewrite Hstrip. reflexivity.
+    - rewrite Hstrip. reflexivity.
+    - unfold comment_of, line.
+      rewrite after_char_app_no by (now apply spaces_no).
+      change ("# " ++ c) with (String "#" (" " ++ c)). rewrite after_char_hit.
+      apply (strip_pad_l " " c eq_refl He).
+  Qed.
+End CommentLine.
+
+(* ---------- field-definition line ---------- *)
+Definition eq_part (b : option string) : string := match b with Some x => String "=" x | None => "" end.
+Definition hash_part (c : option string) : string := match c with Some x => String "#" x | None => "" end.
+
+(* name ':' A ['=' B] ['#' C] with A free of '#', ':', '=' and B free of '#' is a field definition *)
+Lemma cdef_general ind name A B C :
+  str_all is_space ind = true -> is_ident name = true ->
+  has_char "#" A = false -> has_char ":" A = false -> has_char "=" A = false ->
+  match B with Some b => has_char "#" b = false | None => True end ->
+  cdef (ind ++ name ++ String ":" (A ++ eq_part B ++ hash_part C)) = true.
+Proof.
+  intros Hind Hname HA1 HA2 HA3 HB.
+  assert (Hi1 : has_char "#" ind = false) by (now apply spaces_no).
+  assert (Hi2 : has_char ":" ind = false) by (now apply spaces_no).
+  assert (Hi3 : has_char "=" ind = false) by (now apply spaces_no).
+  assert (Hn1 : has_char "#" name = false) by (now apply is_ident_no).
+  assert (Hn2 : has_char ":" name = false) by (now apply is_ident_no).
+  assert (Hn3 : has_char "=" name = false) by (now apply is_ident_no).
+  (* the line up to the comment *)
+  assert (E1 : before_char "#" (ind ++ name ++ String ":" (A ++ eq_part B ++ hash_part C))
+               = ind ++ name ++ String ":" (A ++ eq_part B)).
+  { rewrite before_char_app_no by exact Hi1. rewrite before_char_app_no by exact Hn1.
+    f_equal. f_equal. simpl. f_equal.
+    rewrite before_char_app_no by exact HA1. f_equal.
+    destruct B as [b|]; simpl.
+    - f_equal. rewrite before_char_app_no by exact HB.
+      destruct C; simpl; now rewrite append_nil_r.
+    - destruct C; simpl; reflexivity. }
+  (* attribute_and_type *)
+  assert (E2 : (if has_char "=" (ind ++ name ++ String ":" (A ++ eq_part B))
+                then before_char "=" (ind ++ name ++ String ":" (A ++ eq_part B))
+                else ind ++ name ++ String ":" (A ++ eq_part B))
+               = ind ++ name ++ String ":" (A ++ "")).
+  { destruct B as [b|]; simpl eq_part.
+    - replace (has_char "=" (ind ++ name ++ String ":" (A ++ String "=" b))) with true.
+      2:{ symmetry. rewrite !has_char_app. simpl. rewrite has_char_app. simpl.
+          rewrite !orb_true_r. reflexivity. }
+      rewrite before_char_app_no by exact Hi3. rewrite before_char_app_no by exact Hn3.
+      f_equal. f_equal. simpl. f_equal.
+      rewrite before_char_app_no by exact HA3. now rewrite before_char_hit.
+    - replace (has_char "=" (ind ++ name ++ String ":" (A ++ ""))) with false; [reflexivity|].
+      symmetry. rewrite append_nil_r. rewrite !has_char_app. simpl. now rewrite Hi3, Hn3, HA3. }
+  unfold cdef, contains_def. rewrite E1.
+  replace (has_char ":" (ind ++ name ++ String ":" (A ++ eq_part B))) with true.
+  2:{ symmetry. rewrite !has_char_app. simpl. rewrite !orb_true_r. reflexivity. }
+  cbn [negb]. rewrite E2.
+  rewrite before_char_app_no by exact Hi2. rewrite before_char_app_no by exact Hn2.
+  rewrite before_char_hit.
+  rewrite after_char_app_no by exact Hi2. rewrite after_char_app_no by exact Hn2.
+  rewrite after_char_hit.
+  rewrite (strip_pad ind name "" Hind eq_refl (is_ident_edge_ok name Hname)).
+  rewrite append_nil_r, HA2.
+  destruct (String.eqb name "") eqn:E; [|exact Hname].
+  apply String.eqb_eq in E. subst. discriminate Hname.
+Qed.
+
+Definition last_ok (s : string) : bool := first_ok (srev s).
+Lemma last_ok_app a b : b <> "" -> last_ok (a ++ b) = last_ok b.
+Proof.
+  intros Hb. unfold last_ok. rewrite srev_app. apply first_ok_app.
+  intros E. apply Hb, srev_empty, E.
+Qed.
+Lemma app_nonempty_r (a b : string) : b <> "" -> a ++ b <> "".
+Proof. destruct a; simpl; [auto | discriminate]. Qed.
+
+Ltac nonempty := repeat (apply app_nonempty_r); first [assumption | simpl; discriminate].
+
+Lemma type_ok_parts s : type_ok s = true ->
+  has_char "#" s = false /\ has_char ":" s = false /\ has_char "=" s = false /\ edge_ok s = true /\ s <> "".
+Proof.
+  intros H. apply andb_true_iff in H as [H H3]. apply andb_true_iff in H as [H1 H2].
+  repeat split; try (apply (str_all_no_char type_char); [reflexivity | exact H1]);
+    [exact H2 | now apply str_nonempty_ne].
+Qed.
+
+Lemma value_ok_parts s : value_ok s = true -> has_char "#" s = false /\ edge_ok s = true /\ s <> "".
+Proof.
+  intros H. apply andb_true_iff in H as [H H3]. apply andb_true_iff in H as [H1 H2].
+  repeat split; [apply (str_all_no_char value_char); [reflexivity | exact H1] | exact H2 | now apply str_nonempty_ne].
+Qed.
+
+Section FieldLine.
+  Variables (ind name ty : string) (v c : option string).
+  Hypothesis Hind : str_all is_space ind = true.
+  Hypothesis Hname : is_ident name = true.
+  Hypothesis Hty : type_ok ty = true.
+  Hypothesis Hv : match v with Some x => value_ok x = true | None => True end.
+  Hypothesis Hc : match c with Some y => mark_ok y = true | None => True end.
+
+  Let body := name ++ ": " ++ ty ++ value_text v ++ inline_text c.
+
+  Lemma field_body_shape :
+    exists A B C,
+      body = name ++ String ":" (A ++ eq_part B ++ hash_part C)
+      /\ has_char "#" A = false /\ has_char ":" A = false /\ has_char "=" A = false
+      /\ match B with Some b => has_char "#" b = false | None => True end.
+  Proof.
+    destruct (type_ok_parts ty Hty) as [T1 [T2 [T3 _]]].
+    unfold body. destruct v as [x|], c as [y|]; simpl value_text; simpl inline_text.
+    - destruct (value_ok_parts x Hv) as [V1 _].
+      exists (" " ++ ty ++ " "), (Some (" " ++ x ++ "  ")), (Some (" " ++ y)).
+      split; [simpl; rewrite !append_assoc; reflexivity|].
+      repeat split; nochar.
+    - destruct (value_ok_parts x Hv) as [V1 _].
+      exists (" " ++ ty ++ " "), (Some (" " ++ x)), None.
+      split; [simpl; rewrite !append_assoc, ?append_nil_r; reflexivity|].
+      repeat split; nochar.
+    - exists (" " ++ ty ++ "  "), None, (Some (" " ++ y)).
+      split; [simpl; rewrite !append_assoc; reflexivity|].
+      repeat split; nochar.
+    - exists (" " ++ ty), None, None.
+      split; [simpl; rewrite ?append_nil_r; reflexivity|].
+      repeat split; nochar.
+  Qed.
+
+  Lemma field_body_edge_ok : edge_ok body = true.
+  Proof.
+    destruct (type_ok_parts ty Hty) as [_ [_ [_ [Te Tn]]]].
+    assert (Hrest : forall rest, rest <> "" -> last_ok rest = true -> edge_ok (name ++ rest) = true).
+    { intros rest Hn Hl. apply edge_ok_app; try assumption.
+      - now apply is_ident_nonempty.
+      - apply edge_ok_first. now apply is_ident_edge_ok. }
+    unfold body. apply Hrest.
+    - simpl. discriminate.
+    - destruct c as [y|]; simpl inline_text.
+      + destruct (mark_ok_parts y Hc) as [_ [Ye Yn]].
+        rewrite last_ok_app by nonempty.
+        rewrite last_ok_app by nonempty.
+        rewrite last_ok_app by nonempty.
+        match goal with |- last_ok ?t = true => change t with ("  # " ++ y) end.
+        rewrite (last_ok_app "  # " y Yn). now apply edge_ok_last.
+      + rewrite append_nil_r. destruct v as [x|]; simpl value_text.
+        * destruct (value_ok_parts x Hv) as [_ [Xe Xn]].
+          rewrite last_ok_app by nonempty.
+          rewrite last_ok_app by nonempty.
+          match goal with |- last_ok ?t = true => change t with (" = " ++ x) end.
+          rewrite (last_ok_app " = " x Xn). now apply edge_ok_last.
+        * rewrite append_nil_r. rewrite (last_ok_app ": " ty Tn). now apply edge_ok_last.
+  Qed.
+
+  Lemma field_line_view :
+    let line := ind ++ body in
+    v_isdef (vw line) = true /\ v_defname (vw line) = Some name /\ v_empty (vw line) = false
+    /\ v_comment (vw line) = match c with Some y => y | None => "" end.
+  Proof.
+    intros line. unfold line.
+    destruct field_body_shape as [A [B [C [Eb [A1 [A2 [A3 HB]]]]]]].
+    assert (Hstrip : strip (ind ++ body) = body) by (apply strip_pad_l; [exact Hind | apply field_body_edge_ok]).
+    assert (Hne : body <> "").
+    { unfold body. intros E. apply (is_ident_nonempty name Hname). destruct name; [reflexivity | discriminate E]. }
+    unfold vw, view; cbn [v_isdef v_defname v_empty v_comment].
+    repeat split.
+    - rewrite Eb. now apply cdef_general.
+    - unfold def_name. rewrite Hstrip.
+      replace (contains_def "#" ":" "=" body) with true.
+      2:{ symmetry. rewrite Eb. apply (cdef_general "" name A B C); auto. }
+      cbn [negb]. rewrite Eb.
+      rewrite before_char_app_no by (now apply is_ident_no). rewrite before_char_hit, append_nil_r.
+      rewrite (strip_edge_ok name (is_ident_edge_ok name Hname)), Hname. reflexivity.
+    - rewrite Hstrip. destruct body; [congruence | reflexivity].
+    - unfold comment_of, body.
+      destruct (type_ok_parts ty Hty) as [T1 _].
+      assert (V1 : has_char "#" (value_text v) = false).
+      { destruct v as [x|]; simpl value_text; [|reflexivity].
+        destruct (value_ok_parts x Hv) as [X1 _]. nochar. }
+      rewrite after_char_app_no by (now apply spaces_no).
+      rewrite after_char_app_no by (now apply is_ident_no).
+      rewrite after_char_app_no by reflexivity.
+      rewrite after_char_app_no by exact T1.
+      rewrite after_char_app_no by exact V1.
+      destruct c as [y|]; simpl inline_text; [|reflexivity].
+      destruct (mark_ok_parts y Hc) as [_ [Ye _]].
+      simpl. apply (strip_pad_l " " y eq_refl Ye).
+  Qed.
+End FieldLine.
